@@ -36,7 +36,8 @@ def tasks(ctx, quick):
                 t["wavelength"] = sorted(rng.sample([1, 2, 3, 4, 5, 6, 12], rng.randint(1, 4)))
             t["wform"] = rng.choice(["array", "list", "tuple"])
         t["via"] = ["formula", "kw", "carried", "formula", "kw", "carried-own"][i % 6 if i % 7 else 2]
-        if i % 10 == 9:        # the calculator reads the text itself with table=T (T2: a table with its own masses)
+        if i % 10 == 9 and not any(x[0] == 0 for x in comp):        # (the neutron cannot be written as text)
+            # the calculator reads the text itself with table=T (T2: a table with its own masses)
             t["via"] = "sld-string-table"
             t["T"] = rng.choice(["T2", "T2", "T1", None])
             for kk in ("wform",):
